@@ -457,4 +457,99 @@ def R_is_ephemeral(kind):
     return 20000 <= kind < 30000
 
 
-SUBCHECKS = [Authentic(), ServiceEvents(), Twins()]
+LOAD_CONF = """
+storage:
+  sqlalchemy.url: sqlite+aiosqlite:///%(db)s
+%(validators)s
+logging:
+  version: 1
+  root:
+    level: CRITICAL
+"""
+LOAD_VALIDATORS = {
+    "absent": "",   # the documented default applies: [is_signed]
+    "shipped": "  validators:\n    - nostr_relay.validators.is_not_too_large\n    - nostr_relay.validators.is_signed\n"
+               "    - nostr_relay.validators.is_recent\n    - nostr_relay.validators.is_not_hellthread\n",
+    "signed-only": "  validators:\n    - nostr_relay.validators.is_signed\n",
+    "signed-last": "  validators:\n    - nostr_relay.validators.is_not_hellthread\n    - nostr_relay.validators.is_signed\n",
+}
+
+
+class BulkLoad(Sub):
+    """The `nostr-relay load` command (cli.py) fed a dump that mixes genuine events with mutants from the catalogue, under
+    storage configurations with and without a validators entry; afterwards the sqlite file is read below the relay and
+    every row must be authentic and equal to a submitted line. One child process per case (the command owns Config)."""
+    name = "bulk-load"
+    examples = {"quick": 64, "thorough": 512}
+    shards = {"quick": 8, "thorough": 16}
+    rule = "non-trivial = the dump holds at least one inauthentic mutant and at least one genuine event; SQL (sqlite file) only"
+
+    def strategy(self, tier):
+        return st.fixed_dictionaries({
+            "validators": st.sampled_from(sorted(LOAD_VALIDATORS)),
+            "wrap": st.lists(st.booleans(), min_size=6, max_size=6),
+            "cases": st.lists(st_case(), min_size=1, max_size=5)})
+
+    def run_case(self, case):
+        import os
+        import shutil
+        import sqlite3
+        import subprocess
+        import sys
+        import tempfile
+        from vlib import bootstrap
+
+        lines, forged, genuine = [], 0, 0
+        for i, c in enumerate(case["cases"]):
+            ev = mutate(c)
+            lines.append(ev)
+            ok = isinstance(ev, dict) and E.authentic(ev)[0]
+            forged += 0 if ok else 1
+            genuine += 1 if ok else 0
+            if i % 2 == 0:
+                lines.append(c["other"])
+                genuine += 1
+        tmp = tempfile.mkdtemp(prefix="load-", dir=os.environ.get("VERIF_TMP") or None)
+        viol = []
+        try:
+            db = os.path.join(tmp, "relay.sqlite3")
+            conf = os.path.join(tmp, "conf.yaml")
+            dump = os.path.join(tmp, "dump.jsonl")
+            with open(conf, "w") as fp:
+                fp.write(LOAD_CONF % {"db": db, "validators": LOAD_VALIDATORS[case["validators"]]})
+            with open(dump, "w") as fp:
+                for i, ev in enumerate(lines):
+                    fp.write(json.dumps(["EVENT", ev] if case["wrap"][i % 6] else ev) + "\n")
+            env = dict(os.environ, VERIF_REPO=bootstrap.REPO, PYTHONDONTWRITEBYTECODE="1", PYTHONPATH=bootstrap.VERIF)
+            proc = subprocess.run([sys.executable, "-m", "vlib.loadchild", conf, dump], cwd=bootstrap.VERIF, env=env,
+                                  capture_output=True, text=True, timeout=300)
+            rows = []
+            if os.path.exists(db):
+                con = sqlite3.connect(db)
+                try:
+                    rows = con.execute("SELECT id, created_at, kind, pubkey, tags, sig, content FROM events").fetchall()
+                finally:
+                    con.close()
+            stored = []
+            for r in rows:
+                tags = json.loads(r[4]) if isinstance(r[4], str) else r[4]
+                stored.append({"id": r[0].hex() if isinstance(r[0], bytes) else r[0], "created_at": r[1], "kind": r[2],
+                               "pubkey": r[3].hex() if isinstance(r[3], bytes) else r[3], "tags": tags,
+                               "sig": r[5].hex() if isinstance(r[5], bytes) else r[5], "content": r[6]})
+            for sev in stored:
+                ok, why = E.authentic(sev)
+                if not ok:
+                    viol.append(V("sql-bulk-load-inauthentic-stored:%s" % klass(why), "only authentic events are stored",
+                                  validators=case["validators"], stored=sev, why=why))
+                    break
+                if not any(isinstance(x, dict) and same(sev, x) for x in lines):
+                    viol.append(V("sql-bulk-load-stored-differs-from-submitted", "what is stored equals what was submitted",
+                                  validators=case["validators"], stored=sev))
+                    break
+            labels = ["validators:" + case["validators"], "child-rc:%d" % proc.returncode, "stored:%d" % min(len(stored), 3)]
+        finally:
+            shutil.rmtree(tmp, ignore_errors=True)
+        return Result(viol, bool(forged and genuine), labels)
+
+
+SUBCHECKS = [Authentic(), ServiceEvents(), Twins(), BulkLoad()]
